@@ -34,8 +34,23 @@ def entails_ax(ex, c, extra=(), tri=False):
         return False
     neg = z3.Not(c)
     lem = axioms.instantiate([neg] + list(extra))
-    # 1. pure-arithmetic abstraction (all function applications replaced by constants): complete for real arithmetic, fast
     hyps = [h for h in ex.pc if isz(h)]
+    # 0. only the quantifier-free hypotheses connected to the goal (a subset of the hypotheses: 'unsat' is conclusive)
+    try:
+        from . import numeval
+        h0 = numeval.relevant_hyps([h for h in hyps if not z3.is_quantifier(h)], [neg] + list(extra))
+        if len(h0) < len(hyps):
+            terms0 = axioms.abstract_all(h0 + list(extra) + lem + [neg])
+            s = z3.Solver()
+            s.set('timeout', min(ex.timeout_ms, 3000))
+            s.set('arith.solver', 2)
+            s.add(*terms0)
+            ex.solver_calls += 1
+            if s.check() == z3.unsat:
+                return True
+    except z3.Z3Exception:
+        pass
+    # 1. pure-arithmetic abstraction (all function applications replaced by constants): complete for real arithmetic, fast
     try:
         terms, amap = axioms.abstract_all(hyps + list(extra) + lem + [neg], want_map=True)
         s = z3.Solver()
@@ -72,6 +87,8 @@ def entails_ax(ex, c, extra=(), tri=False):
         return True
     if r1 == 'sat':
         return False
+    # undecided internal query: whatever is built on the negative answer must not be reported as a violation
+    mark_incomplete(ex)
     return None if tri else False
 
 
@@ -107,6 +124,11 @@ def arrays_equal(ex, a, b):
         return False
     if isinstance(e, bool):
         return e
+    # structural filter: element terms built from different sets of array element functions (input samples, outputs of other
+    # operator applications, random draws) are treated as different arrays.  This can only lose an identification (the dependent
+    # obligation then fails to discharge and is reported undecided/violated-without-input), never create a wrong proof.
+    if _array_symbols(va) != _array_symbols(vb):
+        return False
     # cheap decisive filter: a concrete interpretation (real special functions) satisfying the path condition under which the
     # elements differ clearly shows that the arrays are not provably equal
     try:
@@ -131,6 +153,23 @@ def mark_incomplete(ex):
     if not ex.__dict__.get('_incomplete'):
         ex._incomplete = True
         ex.assume(INCOMPLETE)
+
+
+def _array_symbols(v):
+    terms = [t for t in ((v.re, v.im) if isinstance(v, Cx) else (v,)) if isz(t)]
+    seen, out, st = set(), set(), list(terms)
+    while st:
+        x = st.pop()
+        if x.get_id() in seen:
+            continue
+        seen.add(x.get_id())
+        if z3.is_app(x) and x.num_args() > 0 and x.decl().kind() == z3.Z3_OP_UNINTERPRETED:
+            if x.decl().name() in ('cos', 'sin'):
+                continue          # phase factors: what feeds a phase may cancel (unit modulus), so it is not part of the fingerprint
+            if x.decl().name() not in UF:
+                out.add(x.decl().name())
+        st.extend(x.children())
+    return out
 
 
 def _apps(ex):
